@@ -70,6 +70,15 @@ def run(c):
         "the model's hand-over to it (recipients, flag) is compared with what the target BEHIND the real queue is shown on "
         "the queue's one attempt (max_tries 1; the queue is started fresh for the case and closed when its spool is empty); "
         "retries, restarts between attempts (meta-data re-read from disk) and failure reports are C01 / C02 / C05 / C10's",
+        "which implementation a check has (scripted state objects or a real internal/check stateless check, op token "
+        "sl=) is not an input of the model: a check is its verdicts per (message, stage, recipient); that the stateless "
+        "plumbing (state object per message, the message's own MsgMetadata, fail_action applied at every stage) delivers "
+        "exactly those verdicts is what the differential runs and the monitor check",
+        "a flaky destination block (flag f) is modelled by MFaults.withDeadBlocks: the failing CheckStateForMsg stands "
+        "after checks that already have their state, so checkStates returns out of its creation loop before any Check* "
+        "call and before anything is recorded - the point and the effect of a failing RewriteRcpt of the source group "
+        "(refused right before the block's checks; C06_dead_block_takes_no_recipient); a CheckStateForMsg that fails for "
+        "some messages only, or after states were created earlier in the same loop, is not generated",
         "how the client spells the domain of a recipient (upper / mixed case) is not an input of the model: the endpoint "
         "normalises it (address.CleanDomain, as the harness does) before the pipeline sees the address; the LMTP "
         "per-command bookkeeping (one failure status per accepted RCPT command of an address, a command without one is "
@@ -146,7 +155,22 @@ def run(c):
         "turn 1-2 targets into REAL target.queue objects (NewQueue + Init from configuration, own spool, max_tries 1) in "
         "front of the recording target (40% refusing quarantined messages like target.remote), in 70% with a quarantine "
         "verdict of an applicable check at a random one of the four stages: the flag / refusal oracle is evaluated at the "
-        "target behind the queue (violations name the queue hop); distinct = distinct op lines",
+        "target behind the queue (violations name the queue hop); "
+        "round 10: in 40% of the multi ops some of the checks (op token sl=<ids>; 45% of the multi ops with two or more "
+        "transactions additionally the favoured situation below) are REAL internal/check stateless checks "
+        "(check.RegisterStatelessCheck, one registered module per check id, a fresh instance per pipeline, configured with "
+        "`fail_action <word>` when every reason-carrying verdict of the check names one action, action ignore with "
+        "pre-applied results otherwise): the registered functions decide about the message whose MsgMetadata the stateless "
+        "state object hands them (the script is found by StatelessCheckContext.MsgMeta.ID), a wrapper keeps the books and "
+        "compares that message with the one the state object was created for (C06/foreign-metadata-shown); 4% of the "
+        "destination blocks of multi ops (and the favoured ones) are flaky (block flag f): they list one more check "
+        "whose CheckStateForMsg fails for every message (backend down, 451), placed right after the block's leading "
+        "checks that are global / source checks too - a RCPT accepted into such a block is C06/stage-not-seen; "
+        "favoured: stateless check X in the global scope AND in the destination block of the first recipient of "
+        "transaction 0, where either a block-only check Y rejects the connection / sender it is shown late or the block is "
+        "flaky with X listed first (both make checkStates close the states of the group, X's live one included), schedule "
+        "MAIL(0) RCPT(0) MAIL(1) then a random merge, X rejecting a later recipient / rejecting or quarantining the body of "
+        "transaction 0 and saying nothing about transaction 1; distinct = distinct op lines",
         explanation="theorems over all configurations, envelopes, both body paths and all completion orders; model tied to "
         "check_runner.go / msgpipeline.go by differential runs on the real pipeline and by regenerated call lists (T1)",
         search=search,
